@@ -64,13 +64,48 @@ impl UnifyProp {
     /// `renamed`: pass every term through recreate_variables with one shared VarMap first.
     /// `swap`: unify(right, left) instead of unify(left, right) at every step.
     fn run_history(&self, h: &[(Term, Term)], renamed: bool, swap: bool, rep: &mut Report) -> Result<Outcome, CaseResult> {
+        self.run_history_built(h, renamed, swap, false, rep)
+    }
+
+    /// `constructor`: every list is rebuilt with the documented constructor make_linked_list (what `slist!` calls) from its
+    /// element terms and tail, instead of the node-by-node form the parser produces - both must unify alike.
+    fn run_history_built(&self, h: &[(Term, Term)], renamed: bool, swap: bool, constructor: bool, rep: &mut Report) -> Result<Outcome, CaseResult> {
         let id = self.id;
-        let note = format!("{}{}", if renamed { "[after recreate_variables] " } else { "" }, if swap { "[sides swapped] " } else { "" });
+        let note = format!("{}{}{}", if renamed { "[after recreate_variables] " } else { "" }, if swap { "[sides swapped] " } else { "" }, if constructor { "[lists built with make_linked_list] " } else { "" });
         // engine terms
         let names = hist_names(h);
         let ids: HashMap<String, usize> = names.iter().enumerate().map(|(i, n)| (n.clone(), i + 1)).collect();
         let mut eterms: Vec<(U, U)> = h.iter().map(|(a, b)| (to_engine(a, &Ids::Map(&ids)), to_engine(b, &Ids::Map(&ids)))).collect();
         let mut vars: Vec<(String, usize)> = names.iter().enumerate().map(|(i, n)| (n.clone(), i + 1)).collect();
+        if constructor {
+            fn rebuild(u: &U) -> U {
+                match u {
+                    U::SComplex(v) => U::SComplex(v.iter().map(rebuild).collect()),
+                    U::SLinkedList { count, .. } if *count == 0 => u.clone(),
+                    U::SLinkedList { .. } => {
+                        let mut terms = vec![];
+                        let mut vbar = false;
+                        let mut cur = u;
+                        while let U::SLinkedList { term, next, count, tail_var } = cur {
+                            if *count == 0 { break; }
+                            terms.push(rebuild(term));
+                            if *tail_var { vbar = true; }
+                            cur = next;
+                        }
+                        // a trailing list argument is *spliced* by the constructor (documented: `[a | [b, c]]`), so a list
+                        // whose last element is itself a list has no constructor call that builds it: keep the parser's form
+                        if !vbar && matches!(terms.last(), Some(U::SLinkedList { .. })) { return u.clone(); }
+                        suiron::make_linked_list(vbar, terms)
+                    }
+                    other => other.clone(),
+                }
+            }
+            let r = guarded(u64::MAX, || eterms.iter().map(|(a, b)| (rebuild(a), rebuild(b))).collect::<Vec<_>>());
+            match r {
+                Ok(v) => eterms = v,
+                Err(f) => return Err(fail(id, "engine-failure", format!("make_linked_list: {:?}", f), h, 0, "[lists built with make_linked_list] ")),
+            }
+        }
         if renamed {
             suiron::clear_id();
             let mut vm = suiron::VarMap::new();
@@ -241,6 +276,13 @@ impl UnifyProp {
         if self.aspect == UAspect::Mgu && has_anon { rep.class("history-with-$_ (also C09)"); }
         if self.aspect == UAspect::Anon && !has_anon { return CaseResult::Discard("no $_ in history".into()); }
         let base = match self.run_history(h, false, false, rep) { Ok(o) => o, Err(r) => return r };
+        if h.iter().any(|(a, b)| a.has_list() || b.has_list()) && self.aspect != UAspect::Acyclic {
+            // the same history over lists built by the documented constructor
+            match self.run_history_built(&h[..base.steps.len().min(h.len())], false, false, true, rep) {
+                Ok(o) => { if o.steps != base.steps { return fail(self.id, "constructor-built-lists-differ", format!("parser-shaped lists: {:?}; make_linked_list: {:?}", base.steps, o.steps), h, 0, ""); } rep.class("also with make_linked_list-built lists"); }
+                Err(r) => return r,
+            }
+        }
         if base.stopped_occurs && base.steps.is_empty() { return CaseResult::Discard("first step needs occurs check".into()); }
         if base.stopped_occurs { rep.class("history-cut-short-by-occurs-check"); }
         let compound = h.iter().any(|(a, b)| a.depth() > 0 && b.depth() > 0);
@@ -274,6 +316,28 @@ impl UnifyProp {
                     let o = match self.run_history(&wrapped, renamed, swap, rep) { Ok(o) => o, Err(r) => return r };
                     if o.steps != base.steps {
                         return fail(self.id, "asymmetric-success", format!("as written: {:?}; as p(..) {}{}: {:?}", base.steps, if renamed { "renamed " } else { "" }, if swap { "swapped" } else { "" }, o.steps), h, 0, "");
+                    }
+                }
+                // head/goal unification as the solver does it: the fact p(t) asked with the query p(u), and the fact p(u)
+                // asked with p(t) - clause lookup, renaming apart and head unification included. Both are compared with the
+                // reference solver (which makes them agree with each other); arity 2 with a constant first argument as well,
+                // since clause selection may look at the arguments.
+                {
+                    let (a, b) = &hh[0];
+                    for (fact, goal) in [(a, b), (b, a)] {
+                        for wide in [false, true] {
+                            let fargs = if wide { vec![Term::atom("k"), fact.clone()] } else { vec![fact.clone()] };
+                            let qargs = if wide { vec![Term::atom("k"), goal.clone()] } else { vec![goal.clone()] };
+                            let mut qv = vec![]; for t in &qargs { t.vars(&mut qv); }
+                            // the query's variables get their own names: fact and query never share variables
+                            let qargs: Vec<Term> = qargs.iter().map(|t| t.map_vars(&mut |n: &str| Term::Var(format!("$Q{}", n.trim_start_matches('$'))))).collect();
+                            let prog = Program { clauses: vec![Clause { name: "p".into(), args: fargs, body: None }, Clause { name: "p".into(), args: vec![Term::atom("zz"); if wide { 2 } else { 1 }], body: None }], qname: "p".into(), qargs };
+                            match crate::props::solver::compare_answers_src(self.id, &prog, None, 0) {
+                                Ok(_) => { rep.class("head/goal pair through the knowledge base"); }
+                                Err(CaseResult::Discard(_)) => {}
+                                Err(r) => return r,
+                            }
+                        }
                     }
                 }
                 let list_l = h.iter().any(|(a, _)| a.has_list());
